@@ -158,8 +158,8 @@ func runBenignRefactorings(prop, repo, verif string) map[string]any {
 		}
 	}
 	return map[string]any{
-		"what":    "behaviour-preserving refactorings of this property's code written by independent sub-agents (extract/inline helper, if→switch, early returns, renames, loop→library call, error wrapping, file moves …), overlaid one at a time; each must stay silent",
-		"silent":  n["silent"], "alarm": n["alarm"], "stale": n["stale"],
+		"what":   "behaviour-preserving refactorings of this property's code written by independent sub-agents (extract/inline helper, if→switch, early returns, renames, loop→library call, error wrapping, file moves …), overlaid one at a time; each must stay silent",
+		"silent": n["silent"], "alarm": n["alarm"], "stale": n["stale"],
 		"results": out,
 	}
 }
